@@ -1,7 +1,7 @@
 #!/bin/bash
 # scripts/keep_seed.sh <Cxx> <A|B> — confirm an independently produced change and keep it under /verif/seeded/<Cxx>-<L>/
 set -u
-id="$1"; L="$2"; src="/tmp/seed/$id/.seed"
+id="$1"; L="$2"; base="${3:-/tmp/seed}"; src="$base/$id/.seed"
 cd "$(dirname "$0")/.."
 out=$(scripts/confirm_seed.sh "$src" "$L" 2>&1); rc=$?
 echo "$id-$L: $out"
